@@ -15,8 +15,8 @@ from vt.oracles import textcmp
 
 ID = 'C04'
 TIERS = {
-    'quick': dict(shards=16, cases=2500, watchdog_s=900),
-    'thorough': dict(shards=16, cases=120000, watchdog_s=6000),
+    'quick': dict(shards=16, cases=8000, watchdog_s=900),
+    'thorough': dict(shards=16, cases=300000, watchdog_s=6000),
 }
 RULE = ('case = (reference lines, actual = reference with 0-3 near-miss edits: number/char/word/whitespace edit, '
         'insert, delete, swap, trailing empty line, removable line) x one of the 128 subsets of {lstrip, rstrip, '
